@@ -80,6 +80,49 @@ IndexRunAllowed(ev) ==
             \/ (~IsNeg(ev.ilo) /\ (~IsSmall(ev.ilo) \/ ToInt(ev.ilo) >= ev.len))   \* whole run >= len
 
 (***************************************************************************)
+(* C10 Contract: bulk memory operations                                    *)
+(***************************************************************************)
+\* ev.ranges: the ranges the operation was given, [side, start, bytes (Wide)]:
+\*   "sbx"      start = offset in this sandbox's region (-1 = null start)
+\*   "app"      an application buffer wholly outside every sandbox (provided by the harness)
+\*   "other"    a raw pointer wholly inside ANOTHER sandbox (outside this one)
+\*   "straddle" a raw pointer whose range crosses this sandbox's boundary
+\* ev.tmin/tmax/tcount: bytes of this sandbox's region that changed; ev.dst: start of the
+\* destination range (writers only); ev.zones: red zones around application buffers intact;
+\* ev.effect: the operation had exactly its specified effect on the given bytes.
+RangeLegal(r, size) ==
+  CASE r.side = "sbx" -> r.start >= 0 /\ ~IsZero(r.bytes) /\ Le(r.bytes, FromInt(size - r.start))
+    [] r.side \in {"app", "other"} -> ~IsZero(r.bytes)
+    [] OTHER -> FALSE
+AllLegal(ev) == \A i \in 1..Len(ev.ranges) : RangeLegal(ev.ranges[i], ev.size)
+AnyEmpty(ev) == \E i \in 1..Len(ev.ranges) : IsZero(ev.ranges[i].bytes)
+Writers == {"memset", "memcpy", "copy_memory_or_grant_access"}
+NullStart(ev) == "nullstart" \in DOMAIN ev /\ ev.nullstart
+
+TouchedInside(ev) ==
+  IF ev.op \in Writers
+    THEN ev.tcount = 0 \/ (ev.tmin >= ev.dst /\ IsSmall(ev.ranges[1].bytes) /\
+                           ev.tmax <= ev.dst + ToInt(ev.ranges[1].bytes) - 1)
+    ELSE ev.tcount = 0
+
+\* the request that MUST be carried out: all ranges legal (for the raw-pointer-with-count
+\* operation under the larger reading of "that many elements", ev.bytes_max)
+MustSucceed(ev) ==
+  /\ AllLegal(ev)
+  /\ ("bytes_max" \in DOMAIN ev => Le(ev.bytes_max, FromInt(ev.size - ev.ranges[1].start)))
+
+RangeOpAllowed(ev) ==
+  CASE ev.out = "ok" ->
+         /\ ev.zones /\ TouchedInside(ev)
+         /\ \/ AllLegal(ev) /\ ev.effect                         \* carried out on exactly those bytes
+            \/ AnyEmpty(ev) /\ ev.tcount = 0                       \* empty request: nothing touched
+            \/ NullStart(ev) /\ ev.tcount = 0                      \* null start: null handed back, nothing touched
+    [] ev.out \in {"abort", "allocfail"} ->
+         ev.zones /\ ev.tcount = 0 /\ ~MustSucceed(ev)            \* satisfiable requests are carried out
+    [] ev.out = "null" -> ev.zones /\ ev.tcount = 0               \* allocation in the sandbox failed
+    [] OTHER -> FALSE                                              \* a fault: the operation left its ranges
+
+(***************************************************************************)
 (* Scaled Model of the pointer address computation (design check)          *)
 (***************************************************************************)
 CONSTANT A            \* address bits of the scaled space
